@@ -10,7 +10,10 @@
        n t u      the letters that also serve as escape letters
        LO HI ...  any other name: an opaque byte (instantiated at random by the harness)
    Numbers are atomic tokens (their text form is primitive::toString's and is bound by replay
-   only); true/false/null are atomic tokens as well.
+   only); true/false/null are atomic tokens as well.  A token stands for ONE exact value of one
+   primitive type; Parse(Dump(NumV(t))) = NumV(t) therefore demands that the parsed-back number
+   has exactly that value (the replayer reports its bits; the token set contains, per floating
+   type, values that need the maximal number of significant digits: 9 for float, 17 for double).
 
    Values (one uniform record shape so that any two values can be compared):
        [k |-> "none"|"null"|"num"|"str"|"arr"|"obj",
